@@ -57,12 +57,13 @@ def pmap(fn, items, nproc=None, chunk=None):
 
 # ------------------------------------------------------------ TLC validation
 def validate(records, module, name, batch=1500, env_key='TRACE_FILE', cfg=None,
-             tag='VERDICT', id_key='tid', heap='2g', extra_env=None):
+             tag='VERDICT', id_key='tid', heap='2g', extra_env=None, collect=()):
     """Validate trace records (each with a unique integer id) in parallel TLC
     processes.  Returns (verdicts: id -> payload dict, stats)."""
     records = list(records)
     if not records:
-        return {}, {'states': 0, 'transitions': 0, 'tlc_runs': 0, 'tlc_wall': 0.0}
+        return {}, {'states': 0, 'transitions': 0, 'tlc_runs': 0, 'tlc_wall': 0.0,
+                    'collected': {t: [] for t in collect}}
     jobs = []
     for bi in range(0, len(records), batch):
         path = tlc.write_json(records[bi:bi + batch], '%s-%05d.json' % (name, bi // batch))
@@ -77,8 +78,11 @@ def validate(records, module, name, batch=1500, env_key='TRACE_FILE', cfg=None,
         raise MachineryError(str(exc))
     verdicts = {}
     states = 0
+    collected = {t: [] for t in collect}
     for res in results:
         states += res.distinct
+        for t in collect:
+            collected[t].extend(res.tag(t))
         for payload in res.tag(tag):
             if not isinstance(payload, dict) or id_key not in payload:
                 raise MachineryError('unparsable %s line: %r' % (tag, payload))
@@ -93,7 +97,8 @@ def validate(records, module, name, batch=1500, env_key='TRACE_FILE', cfg=None,
         except OSError:
             pass
     return verdicts, {'states': states, 'transitions': max(states - len(results), 0),
-                      'tlc_runs': len(results), 'tlc_wall': time.time() - t0}
+                      'tlc_runs': len(results), 'tlc_wall': time.time() - t0,
+                      'collected': collected}
 
 
 def log(msg):
